@@ -20,6 +20,7 @@ package http2_test
 //     handlers at most the advertised SETTINGS_MAX_CONCURRENT_STREAMS.
 
 import (
+	"bytes"
 	"encoding/binary"
 	"fmt"
 	"io"
@@ -48,7 +49,7 @@ type c16Op struct {
 	Payload  []byte `json:"payload,omitempty"`
 	LenDelta int    `json:"len_delta,omitempty"`
 	Raw      []byte `json:"raw,omitempty"`
-	Prio     string `json:"prio,omitempty"` // open: priority request header field; pupd: priority field value
+	Prio     string `json:"prio,omitempty"`  // open: priority request header field; pupd: priority field value
 	Split    int    `json:"split,omitempty"` // permille at which the write is split in two (0 = one write)
 	Read     int    `json:"read,omitempty"`  // after the write: 0 nothing, 1 read everything, 2 read one frame
 }
@@ -111,7 +112,7 @@ func c16BigField(name string, n int) []byte {
 			b = append(b, byte(v&0x7f)|0x80)
 		}
 	}
-	return append(b, make([]byte, n)...)
+	return append(b, bytes.Repeat([]byte{'a'}, n)...)
 }
 
 func c16Req(path int, extra ...string) []byte {
@@ -277,7 +278,10 @@ func c16Gen(t *rapid.T) c16Case {
 		case "bigopen": // request whose header list is larger than a small MaxHeaderBytes allows
 			o.N = rapid.IntRange(1, 3).Draw(t, "n")
 			o.Path = path.Draw(t, "path")
-			o.V = rapid.SampledFrom([]uint32{900, 1100, 1500, 3000, 4500, 9000, 16000}).Draw(t, "size")
+			// permille of the server's header list limit (a block of more than twice the
+			// limit is a connection error, one between the limit and twice the limit is
+			// answered with 431)
+			o.V = rapid.SampledFrom([]uint32{800, 1000, 1050, 1300, 1800, 1950, 2100, 4000}).Draw(t, "size")
 			o.End = rapid.Bool().Draw(t, "end")
 		case "pupd": // PRIORITY_UPDATE (RFC 9218) for open streams or for the streams opened next
 			o.N = rapid.IntRange(1, 3).Draw(t, "n")
@@ -613,7 +617,16 @@ func c16Run(c c16Case, r *vp.Rec) (err error) {
 			if o.End {
 				fl |= c16EndStream
 			}
-			blk := append(c16Req(o.Path), c16BigField("x-vp-big", int(o.V))...)
+			// four fields, each below the limit for a single string, together above the
+			// limit for the list (one oversized string is a different error path)
+			limit := 1500
+			if c.MaxHdr > 0 {
+				limit = c.MaxHdr + 320
+			}
+			blk := c16Req(o.Path)
+			for j := 0; j < 4; j++ {
+				blk = append(blk, c16BigField("x-vp-big", limit*int(o.V)/4000+j)...)
+			}
 			for i := 0; i < n; i++ {
 				b = c16Frame(b, c16TypeHeaders, fl, newID(), blk, 0)
 			}
@@ -621,8 +634,8 @@ func c16Run(c c16Case, r *vp.Rec) (err error) {
 			blk := [][]byte{
 				c16Block("x-trailer", "v"),
 				c16Block("x-trailer", "v", "x-other", string(make([]byte, 100))),
-				c16Block(":path", "/late"),           // pseudo-header in trailers
-				c16Block("X-Upper", "v"),             // invalid name
+				c16Block(":path", "/late"), // pseudo-header in trailers
+				c16Block("X-Upper", "v"),   // invalid name
 				c16Block("content-length", "5", "te", "trailers", "connection", "close"),
 			}[o.V%5]
 			fl := uint8(c16EndHeaders)
